@@ -204,7 +204,7 @@
 
 ; I_orphan (part): every pending marker has its request, context and binding, names its own request, and its consumer is an ordinary account
 (define-fun actOK ((r (Array Key Bytes)) (rid Bytes)) Bool
-  (=> (isActive r rid) (and (requestFound r rid) (bindFound r (reqSvc r rid) (reqProv r rid)) (ordinary (reqConsumer r rid))
+  (=> (isActive r rid) (and (requestFound r rid) (ctxFound r (reqCtxId r rid)) (bindFound r (reqSvc r rid) (reqProv r rid)) (ordinary (reqConsumer r rid))
         (= (BytesValue_Value (dec_BytesValue (select r (KActID rid)))) rid)
         ; the request id names its context and batch
         (= (ridCtx rid) (reqCtxId r rid)) (= (ridBatch rid) (CompactRequest_RequestContextBatchCounter (reqOf r rid)))
@@ -212,6 +212,25 @@
         (= (CompactRequest_RequestContextBatchCounter (reqOf r rid)) (RequestContext_BatchCounter (ctxOf r (reqCtxId r rid))))
         (not (= (RequestContext_BatchState (ctxOf r (reqCtxId r rid))) BATCHCOMPLETED)))))
 (define-fun actInv ((r (Array Key Bytes))) Bool (forall ((rid Bytes)) (! (actOK r rid) :pattern ((select r (KActID rid))))))
+
+; ---- I_batch (C12): the number of pending markers of a context, an aggregate with its point-update law (like sumDep)
+(declare-fun actView ((Array Key Bytes)) (Array Key Bytes))
+(assert (forall ((r (Array Key Bytes)) (k Key)) (! (= (select (actView r) k) (ite (is-KActID k) (select r k) bnil)) :pattern ((select (actView r) k)))))
+(declare-fun cntActV ((Array Key Bytes) Bytes) Int)
+(define-fun cntAct ((r (Array Key Bytes)) (id Bytes)) Int (cntActV (actView r) id))
+(define-fun actAt ((k Key) (v Bytes) (id Bytes)) Int (ite (and (is-KActID k) (= (ridCtx (kai_rid k)) id) (not (= v bnil))) 1 0))
+(assert (forall ((r (Array Key Bytes)) (k Key) (v Bytes) (id Bytes)) (! (= (cntAct (store r k v) id) (+ (- (cntAct r id) (actAt k (select r k) id)) (actAt k v id))) :pattern ((cntActV (actView (store r k v)) id)))))
+(assert (forall ((r1 (Array Key Bytes)) (r2 (Array Key Bytes)) (id Bytes)) (! (=> (= (actView r1) (actView r2)) (= (cntActV (actView r1) id) (cntActV (actView r2) id))) :pattern ((cntActV (actView r1) id) (cntActV (actView r2) id)))))
+; a count is never negative; a present marker is counted; a positive count has a witness
+(declare-fun actWit ((Array Key Bytes) Bytes) Bytes)
+(assert (forall ((r (Array Key Bytes)) (id Bytes)) (! (and (>= (cntAct r id) 0)
+   (=> (> (cntAct r id) 0) (and (not (= (select r (KActID (actWit r id))) bnil)) (= (ridCtx (actWit r id)) id)))) :pattern ((cntActV (actView r) id)))))
+(assert (forall ((r (Array Key Bytes)) (rid Bytes)) (! (=> (not (= (select r (KActID rid)) bnil)) (>= (cntAct r (ridCtx rid)) 1)) :pattern ((select r (KActID rid)) (cntActV (actView r) (ridCtx rid))))))
+; while a batch is open, its pending markers are the requests not yet answered; a completed batch has none
+(define-fun batchOK ((r (Array Key Bytes)) (id Bytes)) Bool
+  (=> (ctxFound r id) (= (cntAct r id) (ite (= (RequestContext_BatchState (ctxOf r id)) BATCHCOMPLETED) 0
+        (- (RequestContext_BatchRequestCount (ctxOf r id)) (RequestContext_BatchResponseCount (ctxOf r id)))))))
+(define-fun cntInv ((r (Array Key Bytes))) Bool (forall ((id Bytes)) (! (batchOK r id) :pattern ((select r (KCtx id))) :pattern ((cntActV (actView r) id)))))
 
 ; ---- listings (queries): records under a prefix, in key order
 (declare-fun bindsIt ((Array Key Bytes) Prefix Int) (Slice ServiceBinding))
@@ -269,16 +288,38 @@
 
 ; ---- I_sched: every queue entry names its own context, which exists, and agrees with the per-context pointer;
 ; a context with a batch in flight has no new batch pending
+(define-fun ctxOK ((r (Array Key Bytes)) (id Bytes)) Bool
+  (=> (ctxFound r id)
+      (and (rng_RequestContext (ctxOf r id)) (<= (slen (RequestContext_Providers (ctxOf r id))) 32767)
+           (ordinary (RequestContext_Consumer (ctxOf r id))) (> (RequestContext_Timeout (ctxOf r id)) 0)
+           (<= (RequestContext_Timeout (ctxOf r id)) (Params_MaxRequestTimeout params))
+           ; batches of a repeated context are at least a timeout apart
+           (=> (RequestContext_Repeated (ctxOf r id)) (>= (RequestContext_RepeatedFrequency (ctxOf r id)) (RequestContext_Timeout (ctxOf r id))))
+           ; a running context has a pending event
+           (=> (= (RequestContext_State (ctxOf r id)) RUNNING) (or (not (= (select r (KExpH id)) bnil)) (not (= (select r (KNewH id)) bnil))))
+           ; a batch in flight has its expiry scheduled
+           (=> (not (= (RequestContext_BatchState (ctxOf r id)) BATCHCOMPLETED)) (not (= (select r (KExpH id)) bnil))))))
 (define-fun expOK ((r (Array Key Bytes)) (h Int) (id Bytes)) Bool
   (=> (not (= (select r (KExpQ h id)) bnil))
-      (and (= (select r (KExpQ h id)) (idVal id)) (ctxFound r id) (rng_RequestContext (ctxOf r id)) (<= (slen (RequestContext_Providers (ctxOf r id))) 32767)
-           (ordinary (RequestContext_Consumer (ctxOf r id))) (> (RequestContext_Timeout (ctxOf r id)) 0)
+      (and (<= (- 9223372036854775808) h) (<= h 9223372036854775807) (= (select r (KExpQ h id)) (idVal id)) (ctxFound r id)
            (= (select r (KExpH id)) (hVal h)) (= (select r (KNewH id)) bnil))))
 (define-fun newOK ((r (Array Key Bytes)) (h Int) (id Bytes)) Bool
   (=> (not (= (select r (KNewQ h id)) bnil))
-      (and (= (select r (KNewQ h id)) (idVal id)) (ctxFound r id) (rng_RequestContext (ctxOf r id)) (<= (slen (RequestContext_Providers (ctxOf r id))) 32767)
-           (ordinary (RequestContext_Consumer (ctxOf r id))) (> (RequestContext_Timeout (ctxOf r id)) 0)
-           (= (select r (KNewH id)) (hVal h)))))
-(define-fun schedInv ((r (Array Key Bytes))) Bool
-  (and (forall ((h Int) (id Bytes)) (! (expOK r h id) :pattern ((select r (KExpQ h id)))))
-       (forall ((h Int) (id Bytes)) (! (newOK r h id) :pattern ((select r (KNewQ h id)))))))
+      (and (<= (- 9223372036854775808) h) (<= h 9223372036854775807) (= (select r (KNewQ h id)) (idVal id)) (ctxFound r id)
+           (= (select r (KNewH id)) (hVal h))
+           ; a context waiting for its next batch has no batch in flight
+           (= (RequestContext_BatchState (ctxOf r id)) BATCHCOMPLETED))))
+(define-fun ctxAllOK ((r (Array Key Bytes))) Bool (forall ((id Bytes)) (! (ctxOK r id) :pattern ((select r (KCtx id))))))
+(define-fun expAllOK ((r (Array Key Bytes))) Bool (forall ((h Int) (id Bytes)) (! (expOK r h id) :pattern ((select r (KExpQ h id))))))
+(define-fun newAllOK ((r (Array Key Bytes))) Bool (forall ((h Int) (id Bytes)) (! (newOK r h id) :pattern ((select r (KNewQ h id))))))
+; the per-context pointers name existing queue entries
+(define-fun hOfVal ((v Bytes)) Int (Int64Value_Value (dec_Int64Value v)))
+(define-fun ptrOK ((r (Array Key Bytes)) (id Bytes)) Bool
+  (and (=> (not (= (select r (KExpH id)) bnil)) (not (= (select r (KExpQ (hOfVal (select r (KExpH id))) id)) bnil)))
+       (=> (not (= (select r (KNewH id)) bnil)) (not (= (select r (KNewQ (hOfVal (select r (KNewH id))) id)) bnil)))))
+(define-fun ptrAllOK ((r (Array Key Bytes))) Bool (forall ((id Bytes)) (! (ptrOK r id) :pattern ((select r (KExpH id))) :pattern ((select r (KNewH id))))))
+(define-fun schedInv ((r (Array Key Bytes))) Bool (and (ctxAllOK r) (expAllOK r) (newAllOK r) (ptrAllOK r)))
+; no scheduled event lies before height H
+(define-fun futInv ((r (Array Key Bytes)) (H Int)) Bool
+  (and (forall ((h Int) (id Bytes)) (! (=> (not (= (select r (KExpQ h id)) bnil)) (>= h H)) :pattern ((select r (KExpQ h id)))))
+       (forall ((h Int) (id Bytes)) (! (=> (not (= (select r (KNewQ h id)) bnil)) (>= h H)) :pattern ((select r (KNewQ h id)))))))
